@@ -31,11 +31,13 @@ OP0LO = int(os.environ.get("C15_OP0LO", "0"))
 OP0HI = int(os.environ.get("C15_OP0HI", str(NOPS)))
 INIT = int(os.environ.get("C15_INIT", "1"))
 FREEZE = tuple(x for x in os.environ.get("C15_FREEZE", "").split(",") if x)
+FORMTEXT = int(os.environ.get("C15_FORMTEXT", "0"))    # value of the text form when it is frozen (1 = literal, OK with a code)
 
 
 def reconfigure():
-    global FREEZE
+    global FREEZE, FORMTEXT
     FREEZE = tuple(x for x in os.environ.get("C15_FREEZE", "").split(",") if x)
+    FORMTEXT = int(os.environ.get("C15_FORMTEXT", "0"))
     _reconf()
 
 
@@ -121,6 +123,8 @@ def call(c, op):
 
 def _native(lazy, nsteps):
     forms = [lazy.next(2, "form-name"), lazy.next(2, "form-body"), lazy.next(2, "form-text")]
+    if "form-text" in FREEZE:
+        forms[2] = FORMTEXT
     cut = CUTS[lazy.next(NCUTS, "cut")]
 
     def choose(what, n):
